@@ -44,20 +44,15 @@ DRIVER = "DriverC09.lean"
 # krylov-batch-unequal-exhaustion is the recorded C15 / C14 defect (breakdownNotMasked, batch-member-breakdown) surfacing
 # through C09; it is only ever applied to a batch of the sub-stream early-batch-unequal whose columns, run one by one
 # through the same call, are ALL right (Engine.unequal_batch).
+# recorded findings (scalar-times-annotated, kron-pow-principal-branch, krylov-batch-unequal-exhaustion) come from
+# /verif/known_findings.json through common.known_clauses; only the not yet recorded clause is listed here
 PROVISIONAL_KNOWN = {
-    "krylov-batch-unequal-exhaustion":
-        "f(A, Arnoldi | Lanczos) @ X for a batch X whose columns exhaust their Krylov spaces at different steps: the batched loops keep stepping the finished "
-        "member and amplify its rounding-level residual (cola/linalg/decompositions/arnoldi.py arnoldi_fact cond_fun/body_fun: xnp.any over the batch; "
-        "new_vec /= clip(norm, tol/2); cola/linalg/decompositions/lanczos.py lanczos_fact cond_fun/body_fun: xnp.any over the batch; V[..., i] / update), so the "
-        "column is wrong although the same call on that column alone is right; witness: pow(Dense([[1,1,0,0],[0,2,1,0],[0,0,3,1],[0,0,0,4]]), -2, "
-        "Arnoldi(max_iters=4, tol=1e-7)) @ [[2,1],[1,1],[0,1],[0,1]] has first column about (-9e6, -1e8, 0, 0) instead of (1.25, 0.25, 0, 0)",
-    "kron-pow-principal-branch":
-        "pow / sqrt / isqrt of a Kronecker product with a NON-INTEGER exponent (cola/linalg/unary/unary.py `pow(A: Kronecker, alpha, alg)` = "
-        "Kronecker(pow(M, alpha) for M in A.Ms)): (a b)**alpha = a**alpha * b**alpha holds for the principal branch only while arg a + arg b stays in (-pi, pi] "
-        "(Lean: C09_kron_pow_domain / C09_kron_pow_counterexample); outside, the result is a power of A (x) B on another branch, not the principal one the "
-        "docstrings promise; witness: sqrt(Kronecker(Diagonal([-1, 1] complex), Diagonal([-1, 1] complex))).to_dense() has diagonal (-1, i, i, 1), the "
-        "principal square root of diag(1, -1, -1, 1) has (1, i, i, 1); for REAL negative factors (Kronecker(Diagonal([-1., -4.]), Diagonal([-1., -4.]))) the "
-        "result is NaN although A (x) B is positive definite",
+    "krylov-zero-column":
+        "a Krylov member (LanczosUnary / ArnoldiUnary, cola/linalg/unary/unary.py _matmat; normalisation of the start vector in "
+        "cola/linalg/decompositions/{lanczos,arnoldi}.py) of a Kronecker product is handed a ZERO column -- produced by a singular structured co-member "
+        "(f(0) = 0 for positive powers) or by a vanishing slice of the reshaped operand (Kronecker._matmat) -- and returns NaN / raises LinAlgError where "
+        "f(A) @ 0 = 0 (same class as C07 krylov-blockdiag-zero-probe); witness: pow(Kronecker(Diagonal([0., 1.72]), SelfAdjoint(Dense([[1.6, -1.26], [-1.26, 0.99]]))), "
+        "10, Lanczos(max_iters=2, tol=1e-12)) @ x is NaN for every x",
 }
 
 EXPONENTS = [Fraction(-2), Fraction(-1), Fraction(-1, 2), Fraction(0), Fraction(1, 2), Fraction(1), Fraction(2), Fraction(3),
@@ -1441,6 +1436,80 @@ def gen_branch_cases(ctx, rng, nprng, n_cases):
     return cases
 
 
+# ------------------------------------------------------------------------------------------------ zero-column defect stream
+ZERO_CLAUSE = "krylov-zero-column"
+
+
+def krylov_zero_column(case, plan, A, X):
+    """the decidable predicate of the clause krylov-zero-column: the call is pow / sqrt / isqrt on a Kronecker product whose plan has
+    a Krylov base member, and -- following Kronecker._matmat (members applied in order i = 0, 1, ... to the fibres along axis i of the
+    operand reshaped to (n_1, ..., n_k, cols)) -- that member receives an EXACTLY zero fibre.  The earlier members are applied as their
+    principal f(M_j) (numpy eig / elementwise on a Diagonal); a zero fibre stays exactly zero under them."""
+    if plan[0] != "kron" or core_kind(A) != "kron" or len(plan) - 1 != len(A.Ms):
+        return False
+    f = scalar_fn(case)
+    sizes = [int(M.shape[0]) for M in A.Ms]
+    Xa = np.asarray(X, dtype=np.complex128)
+    if Xa.ndim == 1:
+        Xa = Xa[:, None]
+    ev = Xa.reshape(*sizes, -1)
+    for i, (p, M) in enumerate(zip(plan[1:], A.Ms)):
+        front = np.moveaxis(ev, i, 0).reshape(sizes[i], -1)
+        if p[0] == "base" and p[1] in ("lanczos", "arnoldi"):
+            if np.any(np.all(front == 0, axis=0)):
+                return True
+        if core_kind(M) == "diag":
+            F = np.diag(f(np.asarray(M.diag).astype(np.complex128)))
+        else:
+            w, V = np.linalg.eig(np.asarray(M.to_dense()).astype(np.complex128))
+            F = (V * f(w)) @ np.linalg.inv(V)
+        F = np.where(np.isfinite(F), F, 0)
+        out = (F @ front).reshape(sizes[i], *np.moveaxis(ev, i, 0).shape[1:])
+        ev = np.moveaxis(out, 0, i)
+    return False
+
+
+def gen_zero_column_cases(ctx, rng, nprng, n_cases):
+    """LABELLED DEFECT stream (not part of the contract streams, which avoid the situation: `kron_zero_column_risk`): Kronecker
+    products whose Krylov member is handed a zero column.  Every case must be explained by `krylov_zero_column` and fail by
+    NaN / LinAlgError (then KNOWN-FINDING krylov-zero-column), or be right."""
+    G = Gen9(rng, nprng)
+    cases = []
+    for t in range(n_cases):
+        k = rng.choice([2, 2, 3])
+        herm = rng.random() < 0.6
+        leaf = G.dense_leaf(k, "pd")
+        if leaf[0] != "ann":
+            leaf = ["ann", "SelfAdjoint", leaf]
+        alg = "lanczos" if herm and rng.random() < 0.6 else "arnoldi"
+        cplx = tree_is_cplx(leaf)
+        c = {"cls": "zero-column", "stream": "defect-zero-column", "alg": alg, "kiters": k, "ktol": 1e-12}
+        if t % 2 == 0:
+            # singular structured co-member in front: f(0) = 0 zeroes a slice of the operand
+            d = [0.0] + [0.7 + 2.0 * rng.random() for _ in range(rng.choice([1, 2]))]
+            rng.shuffle(d)
+            e = ["kron", ["diag", "c128" if cplx else "f64", d], leaf]
+            n = len(d) * k
+            X, vec, xdt = G.operand(n, cplx)
+        else:
+            # Krylov member first, operand with a vanishing slice
+            m = rng.choice([2, 3])
+            e = ["kron", leaf, ["diag", "c128" if cplx else "f64", [0.8 + 2.0 * rng.random() for _ in range(m)]]]
+            n = k * m
+            Xm = nprng.standard_normal((k, m))
+            Xm[:, rng.randrange(m)] = 0.0
+            X, vec, xdt = [[float(v)] for v in Xm.reshape(-1)], True, "f64"
+        fn = rng.choice(["pow10", "pow52", "sqrt"])
+        if fn == "sqrt":
+            c["fn"] = "sqrt"
+        else:
+            al = Fraction(10) if fn == "pow10" else Fraction(5, 2)
+            c.update({"fn": "pow", "alpha": {"q": [al.numerator, al.denominator]}, "alpha_int": True})
+        c.update({"op": e, "x": X, "vec": vec, "xdt": xdt})
+        cases.append(c)
+    return cases
+
+
 # ------------------------------------------------------------------------------------------------ exact Krylov-model stream
 def gen_krylov_exact_cases(ctx, rng, nprng, n_cases):
     """Krylov base cases whose value the Lean driver computes by the EXACT Krylov model (un-normalised Lanczos / Arnoldi
@@ -1555,8 +1624,27 @@ class Engine:
                 facts["steps"] = krylov_steps(real)
             if st == "violation" and c.get("stream") == EARLY_UNEQUAL and "Y" in real:
                 st, det, facts = self.unequal_batch(c, a, st, det, facts)
+            if st == "violation":
+                st, det, facts = self.zero_column(c, a, real, st, det, facts)
             out.append((c, a, real, st, det, facts))
         return out
+
+    def zero_column(self, c, a, real, st, det, facts):
+        """a failing call is reported through the clause krylov-zero-column only if (i) it failed by NaN / inf in the result or by a
+        LinAlgError and (ii) the decidable predicate `krylov_zero_column` holds for this input"""
+        nonfinite = "Y" in real and not np.all(np.isfinite(np.asarray(real["Y"], dtype=np.complex128)))
+        if not (nonfinite or real.get("err") == "error:LinAlgError") or "plan" not in a:
+            return st, det, facts
+        try:
+            A = build.Builder().build(c["op"])
+            hit = krylov_zero_column(c, a["plan"], A, operand(c))
+        except Exception:  # noqa: BLE001
+            hit = False
+        if not hit:
+            return st, det, facts
+        facts = dict(facts)
+        facts["clauses"] = [ZERO_CLAUSE]
+        return "known?", [ZERO_CLAUSE], facts
 
     def unequal_batch(self, c, a, st, det, facts):
         """a batch of the sub-stream `early-batch-unequal` came out wrong: re-run the SAME call column by column (each column
@@ -1967,6 +2055,7 @@ def run(ctx):
         bnprng = np.random.default_rng(ctx.seed * 7 + 1709)
         cases += gen_branch_cases(ctx, brng, bnprng, 40 if not ctx.thorough else 400)
         cases += gen_krylov_exact_cases(ctx, brng, bnprng, 40 if not ctx.thorough else 400)
+        cases += gen_zero_column_cases(ctx, brng, bnprng, 12 if not ctx.thorough else 120)
         for i, c in enumerate(cases):
             c["id"] = i
         batch = 800
@@ -2015,8 +2104,10 @@ def run(ctx):
         "stream `branch-*`: principal powers of Kronecker products of complex factors; the clause kron-pow-principal-branch is attached by the decidable predicate "
         "`kron_branch_violated` (argument sums of member eigenvalues outside (-pi, pi], margin 1e-6; generated spectra keep 0.12 rad distance from the cut), "
         "Lean: C09_kron_pow_domain, C09_kron_pow_domain_witness, C09_kron_pow_counterexample",
-        "recorded findings come from known_findings.json; PROVISIONAL_KNOWN holds kron-pow-principal-branch (above) and krylov-batch-unequal-exhaustion (C15 breakdownNotMasked / C14 batch-member-breakdown "
-        "surfacing through C09), applied only to a batch with unequal exhaustion steps whose columns are all right when the same call is run on them one by one"])
+        "labelled defect stream `defect-zero-column` (Kronecker products whose Krylov member receives a zero column): every failure must be NaN / LinAlgError AND "
+        "explained by the decidable predicate `krylov_zero_column` (simulation of Kronecker._matmat's member order) -> clause krylov-zero-column (PROVISIONAL_KNOWN)",
+        "recorded findings come from known_findings.json (scalar-times-annotated, kron-pow-principal-branch, krylov-batch-unequal-exhaustion = C15 breakdownNotMasked / C14 batch-member-breakdown "
+        "surfacing through C09), the latter applied only to a batch with unequal exhaustion steps whose columns are all right when the same call is run on them one by one"])
     print(json.dumps({"outcomes": cov["outcomes"], "distinct_nontrivial": cov["distinct_nontrivial"], "clauses": cov["distributions"]["clauses"],
                       "identity_checks": ident, "max_err": cov["max_relative_error_ok_cases"], "gate": (gate or {}).get("obligations"), "wall_s": round(ctx.wall(), 1),
                       "notes": ctx.notes[:5]}))
